@@ -75,6 +75,8 @@ Definition ss_rotate (pk : list N) (new_nonce : list N) (s : sstate) : sstate :=
   match ss_ct s with
   | [] => s
   | _ =>
+    (* since a7c93d8: a representation whose tag does not verify is not re-tagged (std::runtime_error, state untouched) *)
+    if negb (forallb (fun p => fst p =? snd p) (combine (ss_tag s) (hmac2 pk (ss_nonce s) (ss_ct s)))) then s else
     let oldk := hmac1 pk (ss_nonce s) in
     let newk := hmac1 pk new_nonce in
     let ct' := rotate_loop (length (ss_ct s)) oldk newk (ss_nonce s) new_nonce 0 (ss_ct s) in
